@@ -45,7 +45,51 @@ def cases(tier, seed):
     # are genuine placements of the same atom group - whichever is reported, its positions and its rotation must belong together
     for j in range(40 if tier == "quick" else 3000):
         out.append({"kind": "half_cell", "s": int(rng.integers(1 << 30)), "cell": ["ortho", "tri"][j % 2], "atol": ATOLS[j % 4], "n": [2, 3, 4][j % 3]})
+    # tolerances of a few 1e-5 A (a request for "the same site, to the printed precision"), near the origin, beside a copy in which one
+    # atom is lifted out of the pattern's plane by several times what the search may accept: the pair distances change in second
+    # order only (far below the tolerance), so the candidate reaches the final placement check and must be turned away there
+    for j in range(30 if tier == "quick" else 2000):
+        out.append({"kind": "tight", "s": int(rng.integers(1 << 30)), "atol": [1e-5, 2e-5, 3e-5][j % 3]})
     return out
+
+
+def run_tight(case, ctx):
+    import mofun
+    from mofun import Atoms
+    from vmon.oracle import geometry as G
+    rng = np.random.default_rng(case["s"])
+    st = ctx.stats
+    atol = case["atol"]
+    els = [["C", "N", "O", "H"], ["Si", "O", "N", "F"], ["C", "O", "Cl", "H"]][case["s"] % 3]
+    base = np.array([[0.0, 0.0, 0.0], [1.35, 0.0, 0.0], [0.25, 1.25, 0.0], [-0.95, 0.75, 0.0]]) + np.pad(rng.uniform(-0.1, 0.1, (4, 2)), ((0, 0), (0, 1)))
+    base[0] = 0.0
+    L = 9.0
+    cell = np.diag([L, L + 0.5, L + 1.0])
+    eff = atol + 1e-5 * (L + 1.0)            # what numpy.allclose(atol=...) lets through at coordinates of this size
+    lift = float(rng.uniform(2.4, 4.2)) * eff
+    j = int(rng.integers(1, 4))
+    decoy = base.copy()
+    decoy[j, 2] += lift
+    R1, R2 = G.random_rotation(rng), G.random_rotation(rng)
+    c1 = rng.uniform(2.0, 2.6, 3)
+    c2 = c1 + np.array([4.2, 4.4, 4.6])
+    pos = np.vstack([(base - base.mean(0)).dot(R1.T) + c1, (decoy - decoy.mean(0)).dot(R2.T) + c2])
+    S = Atoms(elements=els + els, positions=pos, cell=cell)
+    P = Atoms(elements=els, positions=base + rng.uniform(-1, 1, 3))
+    events.seed_all(case["s"])
+    try:
+        idx, xs, qs = mofun.find_pattern_in_structure(S, P, atol=atol, return_positions_and_quats=True)
+    except Exception as e:
+        if type(e).__name__ == "PostBroken":
+            raise
+        st.count("searches_that_raised.%s" % type(e).__name__)
+        return
+    st.count("direct_searches")
+    st.count("searches_with_a_tolerance_of_a_few_1e-5")
+    st.count("lifted_copies_several_tolerances_off_whose_pair_distances_fit")
+    if any(sorted(int(i) for i in m) == [4, 5, 6, 7] for m in idx):
+        st.count("lifted_copies_reported")     # (the postcondition has judged it: the rotation cannot carry the pattern onto it)
+    ctx.nontrivial(["tight", case["s"]])
 
 
 def run_half_cell(case, ctx):
@@ -103,6 +147,8 @@ def run_case(case, ctx):
     import mofun
     if case.get("kind") == "half_cell":
         return run_half_cell(case, ctx)
+    if case.get("kind") == "tight":
+        return run_tight(case, ctx)
     rng = np.random.default_rng(case["s"])
     st = ctx.stats
     pat = patterns.make(rng, case["pattern"])
@@ -248,6 +294,8 @@ def run_case(case, ctx):
 
 def requirements(stats, tier):
     need = []
+    if stats.get("searches_with_a_tolerance_of_a_few_1e-5") < (25 if tier == "quick" else 1500):
+        need.append("searches with a tolerance of a few 1e-5: %d" % stats.get("searches_with_a_tolerance_of_a_few_1e-5"))
     ev = stats.get("contract_eval.C01.in_domain")
     if ev < (1500 if tier == "quick" else 100000):
         need.append("postcondition evaluated in-domain only %d times" % ev)
